@@ -33,30 +33,48 @@ def toMPeers (t : Topology) (accepted : Bool) : List MPeer :=
 
 /-- History steps `<mode> <topology> <strategies>`, mode `n` (new), `r` (full refresh), `t` (topology only,
 strategies written `=`), `R` / `T` (the same with an accepting host filter).  Returns the observation after every step, through the model of
-`calculate_new_topology` (`Model/Refresh.lean`); the hook clears `is_enabled` before a refresh and sets it after. -/
+`calculate_new_topology` (`Model/Refresh.lean`); the rejecting hooks clear `is_enabled` before a refresh, all hooks set it afterwards from
+the specs.  Each step also prints, per peer, the arm of the reuse match it took (`c` = the previous object, `i` =
+inherited at a new address, `n` = new). -/
+def armLetter : Arm → Char
+  | .reused => 'c'
+  | .inherited => 'i'
+  | .fresh => 'n'
+
 def runHistory (strat : Strategy) (dc : Option Nat) (tok : Int) :
     List String → Option CState → List String → Option (List String)
   | [], _, acc => some acc.reverse
   | mode :: topo :: pre :: rest, st, acc =>
-    match parseTopology topo with
+    match parseTopologyEx topo with
     | none => none
-    | some t =>
+    | some tx =>
+      let t : Topology := tx.map (·.1)
       let peers := toMPeers t (mode == "R" || mode == "T")
-      let ids := t.map (·.node.id)
-      let next : Option CState :=
+      -- the hooks impose `enabled` on the new state from the specs: flag `d` = disabled
+      let ids := (tx.filter (fun p => !p.2.contains 'd')).map (·.1.node.id)
+      -- the state `calculate_new_topology` sees: the rejecting hooks clear `is_enabled` first
+      let before : Option CState :=
         match mode, st with
-        | "n", none => (parseStrategies pre).map (fun S => CState.fresh peers S)
-        | "r", some st => (parseStrategies pre).map (fun S => (st.setEnabled []).refresh peers S)
-        | "t", some st => if pre == "=" then some ((st.setEnabled []).refreshTopology peers) else none
-        -- the accepting hooks: host filter accepts every peer, the previous nodes stay enabled
-        | "R", some st => (parseStrategies pre).map (fun S => st.refresh peers S)
-        | "T", some st => if pre == "=" then some (st.refreshTopology peers) else none
+        | "n", none => some ⟨[], [], ⟨[], precompute [] []⟩⟩
+        | "r", some st => some (st.setEnabled [])
+        | "t", some st => some (st.setEnabled [])
+        | "R", some st => some st
+        | "T", some st => some st
         | _, _ => none
-      match next with
+      match before with
       | none => none
-      | some st' =>
-        let st' := st'.setEnabled ids
-        runHistory strat dc tok rest (some st') (observeLine st'.loc st'.keyspaces strat dc tok :: acc)
+      | some b =>
+        let next : Option CState :=
+          if mode == "t" || mode == "T" then (if pre == "=" then some (b.refreshTopology peers) else none)
+          else (parseStrategies pre).map (fun S => b.refresh peers S)
+        match next with
+        | none => none
+        | some st' =>
+          let st' := st'.setEnabled ids
+          let arms := String.ofList (peers.map (fun p => armLetter (pickArm b.known p)))
+          let arms := if arms.isEmpty then "-" else arms
+          runHistory strat dc tok rest (some st')
+            ((observeLine st'.loc st'.keyspaces strat dc tok ++ " arms=" ++ arms) :: acc)
   | _, _, _ => none
 
 def run (case _impl : String) : String :=
